@@ -137,7 +137,7 @@ func TestChanLin(t *testing.T) {
 			mu      sync.Mutex
 			ops     []porcupine.Operation
 			panics  []string
-			closeOv bool
+			closeOv atomic.Bool
 		)
 		record := func(client int, in clIn, call int64, out clOut) {
 			ret := clock.Add(1)
@@ -220,7 +220,7 @@ func TestChanLin(t *testing.T) {
 							record(g, clIn{op: "buffer"}, call, clOut{buf: ib})
 						case "close":
 							if getsInFlight.Load() > 0 {
-								closeOv = true
+								closeOv.Store(true)
 							}
 							call := clock.Add(1)
 							err := ch.Close()
@@ -263,7 +263,7 @@ func TestChanLin(t *testing.T) {
 		if overlap {
 			cls = append(cls, "ops-overlapped")
 		}
-		if closeOv {
+		if closeOv.Load() {
 			cls = append(cls, "close-overlapping-get")
 		}
 		st.Case(trace, overlap && len(ops) >= 6, cls...)
